@@ -105,7 +105,7 @@ use std::{
     borrow::Cow,
     fmt,
     fs::File,
-    io::{BufRead, BufReader, Read, Seek},
+    io::{BufReader, Read, Seek},
     path::Path,
 };
 
@@ -680,8 +680,24 @@ where
                     .context(ReadPreambleBytesSnafu)?;
                 Some(buf)
             } else {
-                // fill the buffer and try to identify where the magic code is
-                let buf = reader.fill_buf().context(ReadPreambleBytesSnafu)?;
+                // gather the first 132 bytes
+                // (the source may deliver them over several short reads),
+                // try to identify where the magic code is,
+                // then go back to the start
+                let mut head = [0u8; 128 + 4];
+                let mut n = 0;
+                while n < head.len() {
+                    match reader.read(&mut head[n..]) {
+                        Ok(0) => break,
+                        Ok(k) => n += k,
+                        Err(e) if e.kind() == std::io::ErrorKind::Interrupted => {}
+                        Err(e) => return Err(e).context(ReadPreambleBytesSnafu)?,
+                    }
+                }
+                reader
+                    .seek_relative(-(n as i64))
+                    .context(ReadPreambleBytesSnafu)?;
+                let buf = &head[..n];
                 if buf.len() < 4 {
                     return PrematureEndSnafu.fail().map_err(From::from);
                 }
@@ -689,7 +705,9 @@ where
                 if buf.len() >= 128 + 4 && &buf[128..132] == b"DICM" {
                     let out: [u8; 128] = std::convert::TryInto::try_into(&buf[0..128])
                         .expect("128 byte slice into array");
-                    reader.consume(128);
+                    reader
+                        .seek_relative(128)
+                        .context(ReadPreambleBytesSnafu)?;
                     Some(out)
                 } else if &buf[0..4] == b"DICM" {
                     // assume that there is no preamble after all
